@@ -189,6 +189,38 @@ static void sd_special(void)
 }
 
 /* ---- GR ---------------------------------------------------------------- */
+/* interlace of user buffers (GR only): p2 = interlace the image is created with (what GRwriteimage/GRwritechunk expect),
+ * p3 = interlace requested for reading with GRreqimageil (-1: never requested, i.e. pixel).  Histories carry values in
+ * pixel order; the harness lays them out / collects them as the library documents (W pixels per line, H lines):
+ *   pixel [p][k]   line [y][k][x]   component [k][p]        with p = y*W + x                                  */
+static long il_off(long il, long W, long H, long nc, long p, long k)
+{
+    if (il == MFGR_INTERLACE_LINE) return (p / W) * (nc * W) + k * W + (p % W);
+    if (il == MFGR_INTERLACE_COMPONENT) return k * W * H + p;
+    return p * nc + k;
+}
+static void *relayout(const void *src, long il, long W, long H, long nc, int to_il)
+{
+    long  n = W * H, p, k;
+    void *dst = calloc((size_t)(n * nc + 1), 8);
+    for (p = 0; p < n; p++)
+        for (k = 0; k < nc; k++) {
+            long a = p * nc + k, b = il_off(il, W, H, nc, p, k);
+            if (to_il) put(dst, b, get(src, a)); else put(dst, a, get(src, b));
+        }
+    return dst;
+}
+static long read_il(void) { return p3 < 0 ? MFGR_INTERLACE_PIXEL : p3; }
+/* the interlace GRwriteimage/GRwritechunk expect is the one GRgetiminfo reports for the image (the creation interlace
+ * in the creating session; what the file records after a reopen) */
+static long write_il(void)
+{
+    int32 nc, t, il = MFGR_INTERLACE_PIXEL, d[2], na;
+    char  nm[H4_MAX_GR_NAME + 1];
+    if (GRgetiminfo(ri, nm, &nc, &t, &il, d, &na) == FAIL) return p2;
+    return il;
+}
+
 static void gr_open_new(void)
 {
     int32 d2[2];
@@ -199,8 +231,9 @@ static void gr_open_new(void)
     gr = GRstart(fid);
     d2[0] = (int32)dims[1]; /* xdim */
     d2[1] = (int32)dims[0]; /* ydim */
-    ri = GRcreate(gr, "image", (int32)dims[2], (int32)nt, MFGR_INTERLACE_PIXEL, d2);
+    ri = GRcreate(gr, "image", (int32)dims[2], (int32)nt, (int32)p2, d2);
     if (ri == FAIL) { dead = 1; printf("X GRcreate failed\n"); return; }
+    if (p3 >= 0 && GRreqimageil(ri, (intn)p3) == FAIL) { dead = 1; printf("X GRreqimageil failed\n"); return; }
     if (hasfill) {
         char fv[64];
         long c;
@@ -241,6 +274,7 @@ static void gr_reopen(void)
     gr  = fid == FAIL ? FAIL : GRstart(fid);
     ri  = gr == FAIL ? FAIL : GRselect(gr, 0);
     if (ri == FAIL) ok = 0;
+    if (ok && p3 >= 0 && GRreqimageil(ri, (intn)p3) == FAIL) ok = 0;
     printf("reopen %s\n", ok ? "ok" : "fail");
     if (!ok) dead = 1;
 }
@@ -350,11 +384,20 @@ int main(int argc, char **argv)
                 intn  rc;
                 gs[0] = s[1]; gs[1] = s[0]; gt[0] = t[1]; gt[1] = t[0]; ge[0] = e[1]; ge[1] = e[0];
                 if (s[2] != 0 || t[2] != 1 || e[2] != dims[2]) rc = FAIL;
-                else rc = isw ? GRwriteimage(ri, gs, gt, ge, buf) : GRreadimage(ri, gs, gt, ge, buf);
+                else if (isw) {
+                    void *ub = relayout(buf, write_il(), e[1], e[0], dims[2], 1);
+                    rc = GRwriteimage(ri, gs, gt, ge, ub);
+                    free(ub);
+                }
+                else rc = GRreadimage(ri, gs, gt, ge, buf);
                 if (rc == FAIL && isw && kind == 2) dead = 1;
                 if (rc == FAIL) printf("%s fail\n", kw);
                 else if (isw) printf("w ok\n");
-                else print_vals("r", buf, n);
+                else {
+                    void *pb = relayout(buf, read_il(), e[1], e[0], dims[2], 0);
+                    print_vals("r", pb, n);
+                    free(pb);
+                }
             }
             free(buf);
         }
@@ -375,9 +418,20 @@ int main(int argc, char **argv)
             else {
                 intn rc;
                 if (api == 0) rc = isw ? SDwritechunk(sds, o, buf) : SDreadchunk(sds, o, buf);
-                else rc = isw ? GRwritechunk(ri, o, buf) : GRreadchunk(ri, o, buf);
+                else if (isw) {
+                    /* the chunk's pixels in chunk order, laid out in the creation interlace (W = chunk_lengths[0]) */
+                    void *ub = relayout(buf, write_il(), cl[0], cl[1], dims[2], 1);
+                    rc = GRwritechunk(ri, o, ub);
+                    free(ub);
+                }
+                else rc = GRreadchunk(ri, o, buf);
                 if (rc == FAIL) printf("%s fail\n", kw);
                 else if (isw) printf("wc ok\n");
+                else if (api == 1) {
+                    void *pb = relayout(buf, read_il(), cl[0], cl[1], dims[2], 0);
+                    print_chunk(pb, cd, ol);
+                    free(pb);
+                }
                 else print_chunk(buf, cd, ol);
             }
             free(buf);
